@@ -297,6 +297,26 @@ def rule_l3(ctx):
                         if tx and tx["k"] == "call" and mir.last_seg(tx["func"].get("declared") or "") in ("find", "position", "any", "get"):
                             if any(r == SELF1 for (r, p) in gb.deep_sources(tx["args"][0], 4)):
                                 gate_walks_def = True
+    # the same walk written with an adaptor: `struct_def.fields.iter().all(|(name, ty)| fields.iter().find(..).is_some_and(..))`
+    for x in sorted(greg):
+        t = gb.term(x)
+        if not (t and t["k"] == "call" and t["func"].get("declared") == "std::iter::Iterator::all" and len(t["args"]) == 2 and t["args"][1]["k"] in ("copy", "move")):
+            continue
+        if not any(r == ("arg", 2) and "struct_defs" in p for (r, p) in gb.deep_sources(t["args"][0], 6)):
+            continue
+        for (r, p) in gb.trace(t["args"][1]["place"], through={}):
+            if r[0] != "agg":
+                continue
+            rv = gb.blocks[r[1]]["stmts"][r[2]]["rv"]
+            cid = rv.get("closure")
+            if not cid or not ctx.has_fn(cid):
+                continue
+            lit_captured = any(rr == SELF1 for o in rv["ops"] for (rr, pp) in gb.trace_operand(o))
+            cb = ctx.body(cid)
+            looks_up = any(mir.last_seg(ct["func"].get("declared") or "") in ("find", "position", "any", "get") and
+                           any(rr == ("arg", 1) for (rr, pp) in cb.deep_sources(ct["args"][0], 4)) for _, ct in cb.calls() if ct["args"])
+            if lit_captured and looks_up:
+                gate_walks_def = True
     if ok_writer:
         res.ok({"function": AS_BITS, "verdict": "Struct arm iterates the struct definition's fields"})
         if gate_walks_def or gate_positional:
